@@ -27,7 +27,9 @@
     flip_diagonal / restore_delaunay / add_point returning Ok, for every number instance, under the separation hypothesis [SEP]
     (no two distinct vertices within the 1e-5 tolerance) -- this is the instance-generic form of the missing item above; with it,
     over the reals, area, coverage and orientation are kept along histories without further hypothesis on the links.
-    STILL OPEN: LNKG of from_polygon's result (hypothesis on the starting mesh); refine; nothing geometric on the float instance.
+    Properties/C08_refine.v: refine and mesh_polygon keep area, coverage, orientation and the invariants, under side conditions on
+    the trace of elementary steps.  STILL OPEN: LNKG of from_polygon's result (hypothesis on the starting mesh); nothing geometric on
+    the float instance.
     Was FALSE for the pinned tree (repaired by fix 361bbb9): a step that returned Err could already have
     invalidated a slot ([C08_split_edge_half_update_refuted], about Model/PinnedMesh.v); [refine] swallowed such an Err
     from [add_point].  The live steps test every child with Triangle3D::new before the first mutation. *)
